@@ -1,6 +1,8 @@
 import VlsModel.Model.Locks
 import VlsModel.Lemmas.Locks
 import VlsModel.Gen.LockTable
+import VlsModel.Model.Locks2pl
+import VlsModel.Lemmas.Locks2pl
 /-
 Property C20 — concurrent requests neither deadlock nor break per-channel atomicity.
 
@@ -11,19 +13,26 @@ Property C20 — concurrent requests neither deadlock nor break per-channel atom
   `Locks_rank_deadlock_free`: the same for a rank function into `Nat × Nat` (class rank, instance:
   instances of `slot` ordered by id) stated on the held-while-acquiring edges.
 * `C20_main_statement` = the full property instantiated at the GENERATED lock table (every request
-  kind).  For the current code it is FALSE: `C20_full_false` exhibits the deadlocked interleaving of
-  `forget_channel × channel_balance` on the generated paths (finding F11); `C20_cycle_*` exhibit one
-  witness per lock-order cycle.
+  kind).  For the current code it is FALSE: `C20_full_false` / `C20_cycle_slot_monitor` exhibit the
+  deadlocked interleaving of a channel request with `add_block` (slot(i) ↔ monitor(i), the remaining
+  cycle of finding F11; the node_state and tracker cycles were removed by re-ordering).
 * `C20_partial`: deadlock freedom + termination for any number of concurrent requests of the kinds
-  in `subKinds` (12 of the 17 scanned kinds: all channel requests on any channels, balance/chaninfo,
-  on-chain checks and signing, new_channel, invoice/keysend approval, allowlist operations); the
+  in `subKinds` (15 of the 17 scanned kinds: everything except add_block / remove_block); lock order
+  tracker < channels < slot < node_state < monitor < monitor_decode < validator_factory < store; the
   acyclicity of that sub-table is `C20_subtable_acyclic`, by `decide +kernel` over the generated table.
-* `Locks_2pl_exclusive_partial`: the lock-level half of the serializability argument (mutual
-  exclusion: two threads never hold the same lock, so the events a channel request executes between
-  acquiring and releasing `slot i` are never interleaved with another holder of `slot i`).  The
-  full conflict-serializability theorem `Locks_2pl_serializable` is NOT proved (it needs a data model
-  of the channel state; stated below in a comment); serializability of outcomes is validated by the
-  harness (every concurrent outcome is compared with all sequential orders).
+* `Locks_2pl_exclusive_partial`: mutual exclusion (two threads never hold the same lock, so the events a
+  channel request executes between acquiring and releasing `slot i` are never interleaved with
+  another holder of `slot i`).
+* `Locks_2pl_serializable` (general, unbounded; lock model with data `Model/Locks2pl.lean`): strict
+  two-phase requests — acquire/update first, then only release; `slot i` held for the whole
+  read-modify-write of channel `i`, `node_state` for the node ledger — are serializable: the final
+  data of every complete interleaved execution equals the data after running all requests
+  sequentially in the order of their first releases.  Limits: the theorem is about the model class
+  of strict two-phase requests with deterministic critical sections; replies are not modelled; a
+  request of the code that opens several independent critical sections (e.g. the channel-map
+  lookup of `with_channel`, `get_heartbeat`: node_state, then tracker) is a sequence of such
+  transactions and is covered per transaction only.  Serializability of whole requests of the
+  implementation (replies + final state) is validated by the harness against all sequential orders.
 -/
 namespace VlsModel.Props.C20
 open VlsModel.Locks VlsModel.Gen.LockTable
@@ -82,14 +91,14 @@ def C20_main_statement : Prop := DeadlockFreeFor Kind.all
 
 /-- rank of the lock classes that orders the acyclic sub-table -/
 def rankCls : Cls → Nat
-  | .channels => 0 | .tracker => 1 | .slot => 2 | .nodeState => 3 | .monitor => 4
+  | .tracker => 0 | .channels => 1 | .slot => 2 | .nodeState => 3 | .monitor => 4
   | .monitorDecode => 5 | .validatorFactory => 6 | .store => 7
 
 /-- the request kinds whose rows are rank-increasing in the current table -/
 def subKinds : List Kind :=
-  [.channel_request, .channel_base_request, .channel_balance, .chaninfo, .check_onchain_tx,
-   .unchecked_sign_onchain_tx, .new_channel, .add_invoice, .add_keysend, .add_allowlist,
-   .set_allowlist, .remove_allowlist]
+  [.channel_request, .channel_base_request, .forget_channel, .channel_balance, .chaninfo,
+   .check_onchain_tx, .unchecked_sign_onchain_tx, .new_channel, .setup_channel, .get_heartbeat,
+   .add_invoice, .add_keysend, .add_allowlist, .set_allowlist, .remove_allowlist]
 
 /-- generated-table obligation: every edge of every row of the sub-table increases the rank -/
 theorem C20_subtable_acyclic : ∀ k ∈ subKinds, ∀ e ∈ edges k, rankCls e.1 < rankCls e.2 := by
@@ -175,17 +184,6 @@ theorem deadlockFree_mono {ks ks' : List Kind} (hsub : ∀ k ∈ ks, k ∈ ks') 
   intro h reqs hc
   exact h reqs (fun r hr => by obtain ⟨k, hk, hck⟩ := hc r hr; exact ⟨k, hsub k hk, hck⟩)
 
-/-- cycle node_state → channels → slot → node_state: `forget_channel` takes node_state first, every
-channel method takes node_state while holding the slot (here via `channel_balance`).  Schedule:
-forget acquires node_state; balance acquires channels and slot 0; both are then blocked. -/
-theorem C20_cycle_state_slot : ¬ DeadlockFreeFor [.forget_channel, .channel_balance] :=
-  not_deadlockFree_of_witness _ _ [0, 1, 1] (by decide +kernel)
-
-/-- cycle channels ↔ tracker: `new_channel` takes the tracker while holding the channel map,
-`get_heartbeat` takes the channel map while holding the tracker. -/
-theorem C20_cycle_channels_tracker : ¬ DeadlockFreeFor [.get_heartbeat, .new_channel] :=
-  not_deadlockFree_of_witness _ _ [0, 0, 0, 0, 0, 1, 1, 1, 1, 1, 1, 1] (by decide +kernel)
-
 /-- cycle slot(i) ↔ monitor(i): a channel request reads its monitor while holding the slot, a block
 containing a transaction of that channel makes the monitor call the commitment-point provider,
 which locks the slot. -/
@@ -195,7 +193,7 @@ theorem C20_cycle_slot_monitor : ¬ DeadlockFreeFor [.channel_request, .add_bloc
 /-- **The full statement is false for the current code** (finding F11). -/
 theorem C20_full_false : ¬ C20_main_statement := by
   intro h
-  exact C20_cycle_state_slot (deadlockFree_mono (by decide) h)
+  exact C20_cycle_slot_monitor (deadlockFree_mono (by decide) h)
 
 /-! ### Atomicity (lock-level half of two-phase locking) -/
 
@@ -204,11 +202,9 @@ abbrev Exclusive {L : Type} (s : State L) : Prop :=
   ∀ (i j : Nat) (ti tj : Thread L), s[i]? = some ti → s[j]? = some tj → i ≠ j → ∀ l, l ∈ ti.held → l ∉ tj.held
 
 /-
-Full statement (NOT proved): `Locks_2pl_serializable` — extend events with reads/writes of the
-channel state guarded by `slot i` (and of the node ledger guarded by `node_state`); if every request
-performs the accesses to channel `i` inside one `slot i` critical section, every complete execution
-is conflict-equivalent to a sequential execution of the same requests.  What is proved below is the
-mutual-exclusion invariant this argument starts from.
+`Locks_2pl_serializable` (below, after the mutual-exclusion invariant) is proved in the lock model with
+data (`Model/Locks2pl.lean`): every lock guards one data cell, `upd l f` is a deterministic
+read-modify-write enabled only while `l` is held.
 -/
 
 /-- **Mutual exclusion is an invariant** of the interleaving semantics (any requests, any schedule):
@@ -279,6 +275,90 @@ theorem Locks_2pl_exclusive_partial {L : Type} [DecidableEq L] (reqs : List (Lis
     | refl => exact id
     | tail _ hstep ih => intro ha; exact step_inv _ _ (ih ha) hstep
   exact all n _ s hs h0
+
+/-! ### Serializability of strict two-phase requests -/
+
+section serializable
+open VlsModel.Locks2pl
+
+/-- **Strict two-phase requests are serializable** (unbounded: any lock/data types, any number of
+threads, any schedule).  Every request first only acquires locks and updates the cells it holds
+(`slot i` for the whole read-modify-write of channel `i`, `node_state` for the node ledger) and then
+only releases (`strict2pl`), and releases at least once.  Then for every complete interleaved
+execution there is a sequential order of ALL the requests — the order of their first releases — such
+that the final data equals the data after running the requests one after the other in that order.
+(By `runReq_apply` the value of each cell is the composition of the critical sections on that cell
+in that order: the per-lock critical-section order of the execution is the one of the sequential
+run.) -/
+theorem Locks_2pl_serializable {L D : Type} [DecidableEq L] (mem0 : L → D)
+    (reqs : List (List (DEv L D)))
+    (hstrict : ∀ r ∈ reqs, strict2pl r = true) (hrel : ∀ r ∈ reqs, hasRel r = true) :
+    ∀ n s, Locks2pl.Steps n (Locks2pl.mkState mem0 reqs) s → Locks2pl.allDone s →
+      ∃ order : List Nat, order.Nodup ∧ (∀ i, i ∈ order ↔ i < reqs.length) ∧
+        ∀ l, s.mem l = (order.foldl (fun m i => runReq m (reqs[i]?.getD [])) mem0) l := by
+  intro n s hs hdone
+  have inv := inv_steps mem0 _ hs (inv_init mem0 reqs hstrict hrel)
+  have hlen : s.threads.length = reqs.length := by
+    rw [inv.len]; simp [Locks2pl.mkState]
+  have hcommitted : ∀ (i : Nat) (t : DThread L D), s.threads[i]? = some t → t.committed = true := by
+    intro i t hi
+    have hmem : t ∈ s.threads := List.mem_of_getElem? hi
+    cases hc : t.committed with
+    | true => rfl
+    | false =>
+      have := ((inv.tinv t hmem).2.2 hc).2.1
+      rw [hdone t hmem] at this
+      simp [hasRel] at this
+  refine ⟨s.commits, inv.cnodup, ?_, ?_⟩
+  · intro i
+    rw [inv.cmem i]
+    constructor
+    · rintro ⟨t, ht, _⟩
+      rcases Nat.lt_or_ge i s.threads.length with h | h
+      · omega
+      · simp [h] at ht
+    · intro hi
+      have hlt : i < s.threads.length := by omega
+      exact ⟨s.threads[i], by simp [hlt], hcommitted i _ (by simp [hlt])⟩
+  · intro l
+    rw [inv.memA l (by
+      intro j tj hj hjc
+      rw [hcommitted j tj hj] at hjc; cases hjc)]
+    rw [serialMem_congr mem0 inv.reqs_same]
+    unfold serialMem
+    have : (fun (m : L → D) (i : Nat) => runReq m (reqAt (Locks2pl.mkState mem0 reqs).threads i))
+        = (fun m i => runReq m (reqs[i]?.getD [])) := by
+      funext m i
+      congr 1
+      unfold reqAt Locks2pl.mkState
+      simp only [List.getElem?_map]
+      cases reqs[i]? <;> rfl
+    rw [this]
+
+/-- generated-table obligation tying the code to the hypothesis of `Locks_2pl_serializable`: in every
+Channel method that read-modify-writes the node ledger (claimable_balances / validate_payments ...
+apply_payments) these steps sit in ONE node_state critical section: the node_state events of the
+method, with one `upd` per ledger step, are strict two-phase.  Splitting the section (a
+`get_state()` per step) changes the generated list and this stops proving. -/
+theorem C20_ledger_sections_strict2pl :
+    ∀ p ∈ ledgerPaths, strict2pl p.2 = true ∧ hasRel p.2 = true := by
+  decide +kernel
+
+/-- non-vacuity: a commitment-update-like request (slot 0, then the node ledger 9, both held to the
+end) and a ledger-only request, strict two-phase, interleaved (thread 0 acquires slot 0 and updates it,
+thread 1 runs completely, thread 0 continues): the execution completes, thread 1 commits first, and
+the final cells are those of the sequential order [1, 0] (cell 9: (0 + 5) * 2 = 10, not (0 * 2) + 5) -/
+example :
+    let r0 : List (DEv Nat Nat) := [.acq 0, .upd 0 (· + 1), .acq 9, .upd 9 (· * 2), .rel 9, .rel 0]
+    let r1 : List (DEv Nat Nat) := [.acq 9, .upd 9 (· + 5), .rel 9]
+    (strict2pl r0 && strict2pl r1 && hasRel r0 && hasRel r1) = true ∧
+    ((Locks2pl.runSched (Locks2pl.mkState (fun _ => 0) [r0, r1]) [0, 0, 1, 1, 1, 0, 0, 0, 0]).map
+        (fun s => (s.commits, s.mem 0, s.mem 9, s.threads.all (fun t => t.todo.isEmpty))))
+      = some ([1, 0], 1, 10, true) ∧
+    (runReq (runReq (fun _ => 0) r1) r0) 9 = 10 := by
+  decide +kernel
+
+end serializable
 
 /-! ### Non-vacuity -/
 
